@@ -66,7 +66,9 @@ def _rand_case(draw):
     w = draw(st.integers(1, 60))
     return {'k': 'rand', 'gaps': gaps, 'labels': labels, 'bw': [b, w],
             'dt': draw(st.sampled_from(DTYPES)), 'rate': draw(st.sampled_from(RATES)),
-            'start': draw(st.integers(0, 1000)), 'tt': draw(st.sampled_from(TIME_TYPES))}
+            # trains may be aligned on an event: times on both sides of zero
+            'start': draw(st.integers(0, 1000) | st.integers(-300, 0)),
+            'tt': draw(st.sampled_from(TIME_TYPES)), 'ro': draw(st.booleans())}
 
 
 def _big_rate_cases(th):
@@ -195,6 +197,8 @@ def check(case):
         ids_map[1] = 65535          # an id at the top of the label dtype's range
     cl = [ids_map[k] for k in labels]
     tt = case.get('tt', 'float64')
+    if tt == 'uint32' and samples[0] < 0:
+        tt = 'int64'
     if tt == 'float64':
         times = np.array(samples, dtype=np.float64) / rate
     else:
@@ -204,6 +208,11 @@ def check(case):
         secs = [s_ // rate for s_ in samples]
         times = secs if tt == 'list' else np.array(secs, dtype=tt)
     clusters = np.array(cl, dtype=case['dt'])
+    if case.get('ro'):
+        # arrays loaded with mmap_mode='r' or owned by someone else are read-only
+        clusters.setflags(write=False)
+        if isinstance(times, np.ndarray):
+            times.setflags(write=False)
     bin_size = b / rate
     window = w / rate
     half = int(Fraction(w, 2 * b))  # floor, exact
@@ -293,4 +302,8 @@ def classify(case, info):
         nt = True
     if case['dt'].startswith('u'):
         labels.append('unsigned')
+    if case.get('start', 0) < 0:
+        labels.append('times-on-both-sides-of-zero')
+    if case.get('ro'):
+        labels.append('read-only-input-arrays')
     return labels, nt
